@@ -827,6 +827,16 @@ example : ¬ DistinctIds ⟨"sha256:ab".toList, ["sha256:cd".toList], [], "1".to
 example : NoTarget benignFS benignOpts ∧ DistinctIds benignOpts ∧ noEmbeddedB benignFS benignOpts = false := by
   refine ⟨noTarget_iff.mpr (by decide), by unfold DistinctIds; decide, by decide⟩
 
+/-- **image_layer_clauses_partial** — the clauses `image-digest` and `layer-digest` of the oracle hold of the
+model's document for embedded SBOMs of arbitrary shape and for EVERY function `ord` (not even `OrdOk` is
+needed), provided the header identifiers are distinct and nothing else claims the image/layer names or
+identifiers.  Stronger than `image_layers_by_digest_embedded`: the image *element itself* (name, SHA256) and
+every layer element survive, also without an image digest. -/
+theorem image_layer_clauses_partial {o : Opts} {fs : SbomDir} {ord : List Id → List Id} {d : Doc}
+    (hh : (header o).ids.Nodup) (hu : unclaimed o fs = true) (h : generate o fs ord = .ok d) :
+    imageOk o d = true ∧ layersOk o d = true :=
+  ⟨(imageOk_iff o d).mpr (generate_unclaimed hh hu h).1, (layersOk_iff o d).mpr (generate_unclaimed hh hu h).2⟩
+
 /-! ## what still holds on the inputs of class F11c -/
 
 /-- **describes_but_apks_partial** — with embedded SBOMs that replace apko's elements (F11c) but have at most
@@ -860,6 +870,33 @@ theorem nameById_needed :
     multiTarget f11aOpts [] = false ∧ nameById f11aOpts [] = false ∧
     okAnd (generate f11aOpts [] id) (fun d => !d.packages.any (fun p => p.name = "aC43".toList)) = true := by
   decide
+
+/-! ## which errors `Generate` can report -/
+
+/-- for all inputs: no layers (a panic in Go), a directory at an SBOM path, an embedded SBOM whose relationships
+mention an element it does not contain, conflicting licensing infos — nothing else -/
+theorem generate_errors {o : Opts} {fs : SbomDir} {ord : List Id → List Id} {e : Err}
+    (h : generate o fs ord = .error e) :
+    e = .noLayers ∨ e = .sbomIsDir ∨ e = .missing ∨ e = .licConflict := by
+  have hf : e ≠ .fuel := fun he => generate_never_fuel o fs ord (he ▸ h)
+  unfold generate at h
+  split at h
+  · cases h; exact Or.inl rfl
+  · split at h
+    · next e' ha =>
+      cases h
+      rcases addApks_error _ ha with h | h | h | h
+      · exact Or.inr (Or.inl h)
+      · exact absurd h hf
+      · exact Or.inr (Or.inr (Or.inl h))
+      · exact Or.inr (Or.inr (Or.inr h))
+    · cases h
+
+/-- on a benign input nothing is imported, so "unable to find elements" cannot happen either -/
+theorem benign_errors {o : Opts} {fs : SbomDir} {ord : List Id → List Id} {e : Err}
+    (hb : Benign o fs) (h : generate o fs ord = .error e) :
+    e = .noLayers ∨ e = .sbomIsDir ∨ e = .licConflict :=
+  generate_noTarget_err (embeddedTarget_false.mp (benign_iff.mp hb).2.2.1) h
 
 /-! ## the orders the driver tries -/
 
